@@ -124,7 +124,7 @@ static void altcost(const cp_t* c, int alt, int* dp, int* dd, int* de) {
 }
 
 // ---- failure bookkeeping --------------------------------------------------
-typedef struct { int verdict; char msg[300]; long count; int len; uint8_t* choices; int confirmed; int p, d, e; uint64_t obs; uint8_t* sites; } failure_t;
+typedef struct { int verdict; char msg[300]; char raw[300]; long count; int len; uint8_t* choices; int confirmed; int p, d, e; uint64_t obs; uint8_t* sites; } failure_t;
 static failure_t fails[64];
 static int nfails;
 static long total_failing;
@@ -158,6 +158,7 @@ static failure_t* record_failure(trace_t* tr, int p, int d, int e) {
   failure_t* f = &fails[nfails++];
   f->verdict = tr->verdict;
   strcpy(f->msg, sig);
+  strncpy(f->raw, tr->msg, sizeof f->raw - 1);
   f->count = 1;
   f->len = tr->ncp;
   f->choices = malloc(tr->ncp + 1);
@@ -205,7 +206,7 @@ static void sample(pass_t* ps, trace_t* tr) {
 }
 
 static int stop_on_fail = 0;
-static long fail_stop_count = 300;
+static long fail_stop_count = 50000;  // keep exploring past failures (they are classified by signature), up to this many
 
 static void run_pass(pass_t* ps) {
   memset(ps, 0, sizeof *ps);
@@ -251,7 +252,7 @@ static void run_pass(pass_t* ps) {
       sample(ps, tr);
     } else if (v == V_FAIL || v == V_DEADLOCK || v == V_CRASH) {
       record_failure(tr, pf.p, pf.d, pf.e);
-      if (stop_on_fail || total_failing >= fail_stop_count) { stopping = 1; ps->complete = 0; }
+      if (stop_on_fail || total_failing >= fail_stop_count || nfails >= 48) { stopping = 1; ps->complete = 0; }
     } else if (v == V_DIVERGE || v == V_ENGINE) {
       fprintf(stderr, "fmc: ENGINE ERROR %s: %s\n", vname[v], tr->msg);
       record_failure(tr, pf.p, pf.d, pf.e);
@@ -491,6 +492,8 @@ int main(int argc, char** argv) {
       snprintf(path, sizeof path, "%s/%s.%d.replay", outdir, name, i);
       fprintf(o, "{\"verdict\":\"%s\",\"msg\":", vname[f->verdict]);
       json_str(o, f->msg);
+      fprintf(o, ",\"raw_msg\":");
+      json_str(o, f->raw);
       fprintf(o, ",\"count\":%ld,\"confirmed\":%s,\"cost\":[%d,%d,%d],\"replay\":", f->count, f->confirmed ? "true" : "false", f->p, f->d, f->e);
       json_str(o, path);
       fprintf(o, "}");
